@@ -3,12 +3,15 @@
 import json, os, subprocess, sys
 V = '/verif'
 EXTRA = {'C01-B': ['C08'], 'C03-A': ['C07'], 'C09-B': ['C07'], 'C13-B': ['C08'], 'C20-B': ['C08'], 'C17-A': ['C07', 'C09']}
-res = {}
+res = json.load(open(f'{V}/seeded/RESULTS.json')) if os.path.exists(f'{V}/seeded/RESULTS.json') and len(sys.argv) > 1 else {}
+ONLY = sys.argv[1].split(',') if len(sys.argv) > 1 else None
 for d in sorted(os.listdir(f'{V}/seeded')):
     p = f'{V}/seeded/{d}'
     if not os.path.isdir(p) or not os.path.exists(p + '/patch.diff'):
         continue
-    pid = d.split('-')[0]
+    if ONLY and d not in ONLY:
+        continue
+    pid = d.split('-')[1][:3] if d.startswith('REVERT') else d.split('-')[0]
     checks = [pid] + EXTRA.get(d, [])
     r = subprocess.run([f'{V}/tools/try_seed.py', p, '--checks', ','.join(checks)], capture_output=True, text=True)
     try:
